@@ -32,6 +32,10 @@ pub enum J {
     /// generator degree, with random probes in between: counters that wrap (generations, epochs), caches that are
     /// "validated" instead of cleared
     LongHistory { seed: u64, steps: usize },
+    /// "EC codewords of built symbols": a symbol built through the public API (builder histories included) is read
+    /// back codeword by codeword; every block's EC must be the remainder of that block's data for the generator degree
+    /// Table 9 gives the (version, level) the symbol ANNOUNCES. kind: 0 random bytes, 1 crafted block shape, 2 digits
+    Built { v: usize, level: usize, kind: usize, seed: u64 },
 }
 
 impl J {
@@ -43,6 +47,7 @@ impl J {
             J::Linear { v, level, seed } => json!({"fam": "linear", "v": v, "level": level, "seed": seed.to_string()}),
             J::Collide { v, level, hash, seed } => json!({"fam": "collide", "v": v, "level": level, "hash": hash, "seed": seed.to_string()}),
             J::LongHistory { seed, steps } => json!({"fam": "long-history", "seed": seed.to_string(), "steps": steps}),
+            J::Built { v, level, kind, seed } => json!({"fam": "built", "v": v, "level": level, "kind": kind, "seed": seed.to_string()}),
         }
     }
     fn from_json(j: &Value) -> Option<J> {
@@ -55,6 +60,7 @@ impl J {
             "linear" => J::Linear { v: g("v")?, level: g("level")?, seed: s("seed")? },
             "collide" => J::Collide { v: g("v")?, level: g("level")?, hash: g("hash")?, seed: s("seed")? },
             "long-history" => J::LongHistory { seed: s("seed")?, steps: g("steps")? },
+            "built" => J::Built { v: g("v")?, level: g("level")?, kind: g("kind")?, seed: s("seed")? },
             _ => return None,
         })
     }
@@ -173,6 +179,16 @@ pub fn jobs(ctx: &Ctx) -> Vec<J> {
                     continue;
                 }
                 jobs.push(J::Collide { v, level, hash: h, seed: mix(ctx.seed, k) });
+            }
+        }
+    }
+    // built symbols: every cell, several payloads, through the adapter (shuffled setter histories, builders that were
+    // used before with another level / version / mask, carriers, transports)
+    for v in 1..=40usize {
+        for level in 0..4usize {
+            for i in 0..ctx.tier.pick(6usize, ctx.scale(300)) {
+                k += 1;
+                jobs.push(J::Built { v, level, kind: i % 3, seed: mix(ctx.seed, k ^ 0xb017) });
             }
         }
     }
@@ -348,6 +364,62 @@ pub fn observe(ctx: &Ctx, st: &mut Stats, j: &J) {
             st.reach("collision_hashes", hash as u64);
             st.distinct(mix(0xc011de, seed));
         }
+        J::Built { v, level, kind, seed } => {
+            st.eval();
+            let mut rng = Rng::new(seed);
+            let lay = tables::layout(v, level);
+            let (mode, input): (usize, Vec<u8>) = match kind {
+                1 => (2, crate::craft::payload_for_shape(v, level, rng.below(crate::craft::CW_SHAPE_COUNT), seed)),
+                2 => (0, {
+                    let cap = ctx.caps.cap(v, level, 0);
+                    (0..1 + rng.below(cap.max(1))).map(|_| b'0' + rng.below(10) as u8).collect()
+                }),
+                _ => (2, {
+                    let cap = ctx.caps.cap(v, level, 2);
+                    let n = if rng.chance(1, 2) { cap } else { 1 + rng.below(cap.max(1)) };
+                    (0..n).map(|_| rng.byte()).collect()
+                }),
+            };
+            if input.len() > ctx.caps.cap(v, level, mode) {
+                st.inconclusive(format!("workload bug: built-symbol payload of {} bytes exceeds v{v} level {level}", input.len()));
+                return;
+            }
+            let cfg = adapter::Config { input, mode: Some(mode), level: Some(level), version: Some(v), mask: if rng.chance(1, 3) { None } else { Some(rng.below(8)) } };
+            let qr = match adapter::build(&cfg) {
+                adapter::Outcome::Ok(q) => q,
+                other => {
+                    viol(st, ("no-symbol".into(), format!("crate returned {}", other.describe())), j, cfg.describe());
+                    return;
+                }
+            };
+            let m = adapter::matrix_of(&qr);
+            let ro = match oracle::decode::read(&m) {
+                Ok(r) => r,
+                Err(e) => {
+                    viol(st, ("read-failed".into(), e), j, cfg.describe());
+                    return;
+                }
+            };
+            if ro.version != v || ro.level != level {
+                viol(st, ("announced-cell".into(), format!("the symbol announces version {} level {}, requested version {v} level {}", ro.version, tables::LEVEL_NAMES[ro.level], tables::LEVEL_NAMES[level])), j, cfg.describe());
+                return;
+            }
+            for (i, b) in ro.blocks.iter().enumerate() {
+                if b.ec.len() != lay.ec_per_block {
+                    viol(st, ("generator-degree".into(), format!("block {i} carries {} EC codewords, Table 9 prescribes degree {}", b.ec.len(), lay.ec_per_block)), j, cfg.describe());
+                    return;
+                }
+                let want = gf::rs_remainder(&b.data, lay.ec_per_block);
+                if b.ec != want {
+                    let p = (0..want.len()).find(|&p| b.ec[p] != want[p]).unwrap();
+                    viol(st, ("built-symbol-remainder".into(), format!("block {i} of {} of a built symbol (data length {}, ec {}): EC codeword {p} is {:#04x}, data(x)*x^{} mod g(x) gives {:#04x}", ro.blocks.len(), b.data.len(), lay.ec_per_block, b.ec[p], lay.ec_per_block, want[p])), j, cfg.describe());
+                    return;
+                }
+            }
+            st.count("built_symbol_blocks_checked", ro.blocks.len() as u64);
+            st.reach("built_cells", (v * 4 + level) as u64);
+            st.distinct(mix(0xb017, seed));
+        }
         J::LongHistory { seed, steps } => {
             // small cells with many different generator degrees: (version, level) -> 7, 10, 13, 17, 10, 16, 22, 28, 15, 26
             const CELLS: [(usize, usize); 10] = [(1, 0), (1, 1), (1, 2), (1, 3), (2, 0), (2, 1), (2, 2), (2, 3), (3, 0), (3, 1)];
@@ -439,13 +511,13 @@ pub fn run(ctx: &Ctx) -> Report {
     let mut rep = Report::new(
         st,
         &format!(
-            "hooked call site polynomials::structure driven directly: for every distinct (block data length, generator degree) pair of Table 9 ({npairs} pairs, smallest cell that has it) a data array that is zero except ONE byte at EVERY position with {} values; + sparse basis in the last / group-boundary blocks of all 160 cells; + get_polynomial for all 160 cells compared coefficient by coefficient with prod(x - alpha^i) computed by shift-and-xor arithmetic; + dense arrays in all 160 cells (random, leading zero runs, interior zero runs, all 0xFF, all zero, sparse); + linearity probes structure(a)^structure(b)==structure(a^b); oracle = table-free GF(256) long division; every output is de-interleaved by the oracle layout and compared in full (data order, EC of every block); distinct key = (pair, position, value) / (cell) / (array seed); every case non-trivial",
+            "hooked call site polynomials::structure driven directly: for every distinct (block data length, generator degree) pair of Table 9 ({npairs} pairs, smallest cell that has it) a data array that is zero except ONE byte at EVERY position with {} values; + sparse basis in the last / group-boundary blocks of all 160 cells; + get_polynomial for all 160 cells compared coefficient by coefficient with prod(x - alpha^i) computed by shift-and-xor arithmetic; + dense arrays in all 160 cells (random, leading zero runs, interior zero runs, all 0xFF, all zero, sparse); + linearity probes structure(a)^structure(b)==structure(a^b); + symbols BUILT through the public API in all 160 cells (random bytes, crafted block shapes, digits; builder histories, carriers and transports of the adapter): read back codeword by codeword, every block's EC must be the remainder of its data for the degree of the announced cell; oracle = table-free GF(256) long division; every output is de-interleaved by the oracle layout and compared in full (data order, EC of every block); distinct key = (pair, position, value) / (cell) / (array seed); every case non-trivial",
             if all_values { "ALL 255 non-zero" } else { "40 (8 fixed + 32 seeded) non-zero" }
         ),
     );
     rep.exhaustive = Some(all_values);
-    rep.expected_sets = vec![("blocklen_ec_pairs", npairs), ("degrees", 13), ("generator_cells", 160), ("dense_cells", 160), ("dense_kinds", 17)];
-    rep.required_sets = vec![("blocklen_ec_pairs", npairs), ("degrees", 13), ("generator_cells", 160), ("dense_cells", 160), ("dense_kinds", 17)];
+    rep.expected_sets = vec![("blocklen_ec_pairs", npairs), ("degrees", 13), ("generator_cells", 160), ("dense_cells", 160), ("dense_kinds", 17), ("built_cells", 160)];
+    rep.required_sets = vec![("blocklen_ec_pairs", npairs), ("degrees", 13), ("generator_cells", 160), ("dense_cells", 160), ("dense_kinds", 17), ("built_cells", 160)];
     rep.min_evaluations = if all_values { 1_300_000 } else { 100_000 };
     rep.assumptions = vec![
         "exhaustive (when true) refers to the single-non-zero-byte basis: every position x every non-zero value for every (block length, degree) pair in use; general contents follow by GF(2)-linearity, which is additionally observed on sampled combinations, not assumed".into(),
